@@ -662,6 +662,8 @@ def owner_keys(hc):
 for ra in (0, 1, 2):
   for ign in (False, True):
     for seq in itertools.product(EV, repeat=payload["depth"]):
+        if payload.get("episodes"):
+            seq = [e for ep in seq for e in ep.split("+")]
         clock.t = 1000.0; del contacts[:]; failing.clear()
         hc = HashClient(servers, retry_attempts=ra, retry_timeout=RT, dead_timeout=DT, ignore_exc=ign)
         hc.client_class = FakeClient
@@ -674,6 +676,7 @@ for ra in (0, 1, 2):
             if ev == "op":
                 was_in = "10.0.0.1:1" in hc.hasher.nodes
                 first_failure = servers[0] not in hc._failed_clients and servers[0] in failing and was_in
+                n_before = len(contacts)
                 try:
                     if payload.get("opkind") == "set_many": hc.set_many({k0: "v"})
                     else: hc.get(k0)
@@ -685,6 +688,14 @@ for ra in (0, 1, 2):
                     why = "internal error escaped: %r" % (e,)
                 if first_failure and ra > 0 and "10.0.0.1:1" not in hc.hasher.nodes:
                     why = "taken out of rotation by a single failure although retry_attempts=%d" % ra
+                if was_in and ra > 0 and "10.0.0.1:1" not in hc.hasher.nodes and not why:
+                    # evicted by this call: it must have failed at least twice in a row (a success in between starts afresh)
+                    streak = 0
+                    for srv, t, failed in reversed([c for c in contacts[:n_before] if c[0] == servers[0]]):
+                        if not failed: break
+                        streak += 1
+                    if streak < 2:
+                        why = "taken out of rotation after an isolated failure (%d failing contact(s) between its last success and the evicting call, retry_attempts=%d)" % (streak, ra)
             elif ev == "tick_small": clock.t += 0.5
             elif ev == "tick_retry": clock.t += RT + 0.1
             elif ev == "tick_dead": clock.t += DT + 0.1
@@ -731,6 +742,11 @@ def hash_replay(ob, res, depth=5):
         if not r1.get("failing"):
             r2 = rp.run_real(HASH_REPLAY, {"depth": 4, "recovery": True, "opkind": opkind, "events": ["op", "tick_retry", "tick_dead", "fail0", "heal0", "fail1"]}, timeout=900)
             r1 = {"cases": (r1.get("cases") or 0) + (r2.get("cases") or 0), "failing": r2.get("failing"), **({"error": r2["error"]} if "error" in r2 else {})}
+        if not r1.get("failing") and "error" not in r1:
+            # third sweep: longer histories made of episodes (fail / recover after the retry window / plain traffic)
+            r3 = rp.run_real(HASH_REPLAY, {"depth": 5, "recovery": True, "opkind": opkind, "episodes": True,
+                                           "events": ["fail0+op", "heal0+tick_retry+op", "op", "tick_small+op", "heal0+op", "tick_dead+op"]}, timeout=900)
+            r1 = {"cases": (r1.get("cases") or 0) + (r3.get("cases") or 0), "failing": r3.get("failing"), **({"error": r3["error"]} if "error" in r3 else {})}
         _hr[opkind] = r1
     obs = _hr[opkind]
     from pyvc.replay import failing_of
